@@ -1,9 +1,5 @@
-/- C04 — executable model (core Lean only).  Stub. -/
+/- C04 — executable model (core Lean only): M-PROP (`Model/C01.lean`) composed with the chop calculator of C03
+   (`Model/C04Chop.lean`, which exports `CBV.C04.handle`: request `c04.run`). -/
 import CBV.Model.Common
 import CBV.Gen.Tables
-
-namespace CBV.C04
-
-def handle (_op : String) (_args : List String) : Option String := none
-
-end CBV.C04
+import CBV.Model.C04Chop
